@@ -10,6 +10,10 @@ from typing import Dict, Iterator, List, Optional, Set, Tuple
 from .model import AnalysisError, norm
 
 
+import os
+SPLIT_BOOL_DEFAULT = bool(os.environ.get('GBSA_SPLIT_BOOL'))
+
+
 @dataclass
 class SymPath:
     conds: List[Tuple[ast.expr, Optional[bool]]] = field(default_factory=list)
@@ -160,8 +164,10 @@ class SymPath:
                     yield r
 
 
-def enumerate_paths(stmts: List[ast.stmt], limit: int = 20000) -> List[SymPath]:
+def enumerate_paths(stmts: List[ast.stmt], limit: int = 20000, split_bool: Optional[bool] = None) -> List[SymPath]:
     """All acyclic paths through ``stmts``.  Nested loops are kept as opaque statements."""
+    if split_bool is None:
+        split_bool = SPLIT_BOOL_DEFAULT
     done: List[SymPath] = []
 
     def run(block: List[ast.stmt], live: List[SymPath]) -> List[SymPath]:
@@ -179,10 +185,37 @@ def enumerate_paths(stmts: List[ast.stmt], limit: int = 20000) -> List[SymPath]:
             p.exit_node = node
             done.append(p)
 
+    def branch(p: SymPath, test: ast.expr, pol: bool) -> List[SymPath]:
+        """the ways `test` can come out as `pol`, with short-circuit evaluation made explicit:  `A or B` is true by A, or by
+        not-A and B;  false by not-A and not-B  (dually for `and`; `not A` flips).  Merging two guards into one compound test,
+        or splitting one, therefore gives the same paths with the same atomic conditions."""
+        if not split_bool:
+            return [p.extend(cond=(test, pol))]
+        if isinstance(test, ast.UnaryOp) and isinstance(test.op, ast.Not):
+            return branch(p, test.operand, not pol)
+        if isinstance(test, ast.BoolOp):
+            is_or = isinstance(test.op, ast.Or)
+            outs: List[SymPath] = []
+            prefix = [p]                      # paths on which every earlier operand did NOT decide the result
+            for k, operand in enumerate(test.values):
+                last = k == len(test.values) - 1
+                if pol == is_or:
+                    # result decided by this operand being `is_or` (true for or, false for and)
+                    for q in prefix:
+                        outs.extend(branch(q, operand, is_or))
+                    if not last:
+                        prefix = [r for q in prefix for r in branch(q, operand, not is_or)]
+                else:
+                    prefix = [r for q in prefix for r in branch(q, operand, not is_or)]
+                    if last:
+                        outs = prefix
+            return outs
+        return [p.extend(cond=(test, pol))]
+
     def step(st: ast.stmt, live: List[SymPath]) -> List[SymPath]:
         if isinstance(st, ast.If):
-            t_paths = run(st.body, [p.extend(cond=(st.test, True)) for p in live])
-            f_paths = run(st.orelse, [p.extend(cond=(st.test, False)) for p in live])
+            t_paths = run(st.body, [q for p in live for q in branch(p, st.test, True)])
+            f_paths = run(st.orelse, [q for p in live for q in branch(p, st.test, False)])
             return t_paths + f_paths
         if isinstance(st, ast.Return):
             finish([p.extend(stmt=st) for p in live], "return", st)
